@@ -101,7 +101,7 @@ impl Check for New {
                     dtor: dtor.clone(),
                 });
             };
-            match symbol_table.dtors.get(&dtor_name) {
+            match symbol_table.dtors.get(&dtor_name).cloned() {
                 None => {
                     return Err(Error::Undefined {
                         span: Some(self.span),
@@ -109,8 +109,11 @@ impl Check for New {
                     });
                 }
                 Some((dtor_args, dtor_ret_ty)) => {
+                    // the instance of the return type might not exist yet, but the body of the
+                    // clause is checked against it
+                    dtor_ret_ty.check(&Some(self.span), symbol_table)?;
                     clause.context_names.no_dups(&dtor_name)?;
-                    let context_clause = clause.context_names.add_types(dtor_args)?;
+                    let context_clause = clause.context_names.add_types(&dtor_args)?;
 
                     let mut new_context = context.clone();
                     new_context
